@@ -7,7 +7,16 @@ use crate::float::Float;
 impl Float {
     /// Return this number raised to the power of 'n'.
     pub fn powi(&self, mut n: u64) -> Self {
-        let sem = self.get_semantics().increase_precision(2);
+        let orig_sem = self.get_semantics();
+        // The intermediate products are rounded to nearest, and only the final
+        // result is rounded in the requested direction: in a directed mode
+        // every product would err the same way and the errors would add up to
+        // about n/2 units in the last place.
+        let inner_rm = match orig_sem.get_rounding_mode() {
+            RoundingMode::NearestTiesToAway => RoundingMode::NearestTiesToAway,
+            _ => RoundingMode::NearestTiesToEven,
+        };
+        let sem = orig_sem.increase_precision(2).with_rm(inner_rm);
         let mut elem = Self::one(sem, false);
         // This algorithm is similar to binary conversion. Each bit in 'n'
         // represents a power-of-two number, like 1,2,4,8 ... We know how to
@@ -23,7 +32,7 @@ impl Float {
             val *= &val.clone();
             n >>= 1;
         }
-        elem.cast(self.get_semantics())
+        elem.cast_with_rm(orig_sem, orig_sem.get_rounding_mode())
     }
 
     /// Calculates the power of two.
